@@ -215,6 +215,23 @@ def parts(tier):
         bounds={"depth": bdepth, "label_length_cap": 9}, max_depth=bdepth, prune=_prune_fn(2.0 ** 41, 9),
         snippet=lambda c: tierops.snippet(c[0], c[1], oth_bi if c[0][0] == "I" else oth_bp)))
 
+    # the size axis: one step of the full menu from long tiers, arguments at the probed entries
+    size_seeds = [("I", "t", 0.0, e[-1][1] + 1.0, e) for n, layout, e in D.size_family(quick)] + \
+                 [("P", "t", 0.0, n + 1.0, D.long_points(n)) for n in (D.SIZES_QUICK if quick else D.SIZES_THOROUGH)]
+
+    def size_menu(state):
+        e = state[4]
+        cuts = D.size_cuts(e)
+        k = len(cuts)
+        V = tuple(sorted(set(c for c in (cuts[1], cuts[2], cuts[3], cuts[k // 2], cuts[k // 2 + 1], cuts[k // 2 + 2], cuts[-3], cuts[-2], cuts[-1]) if c >= 0)))
+        return tierops.menu(state, V, (0.5,), (-1.0, 0.5), maxdiff=0.5)
+
+    ps.append(BfsPart(
+        "bfs-size-sweep", lambda: size_seeds, size_menu, lambda state, op: (step_dy if state[0] == "I" else step_dy_p)(state, op),
+        rule="one step of the full menu from interval tiers (gapped, contiguous) and point tiers of %s entries, with arguments at / in / between the "
+             "entries at the start, the middle and the end of the tier: every tier obtainable is well-formed" % (list(D.SIZES_QUICK if quick else D.SIZES_THOROUGH),),
+        bounds={"depth": 1}, max_depth=1, prune=lambda st: False))
+
     deep_seeds = [("I", "t", 0.0, 3.0, ((0.0, 1.0, "a"), (1.0, 2.0, "b"))), ("I", "t", 0.0, 2.0, ())]
     cap = 5 if quick else 6
     ps.append(BfsPart(
